@@ -3,6 +3,7 @@ CONSTANTS
   MaxE = 3
   MaxOps = 4
   GenHist = FALSE
+  GenKinds = {"H", "T"}
 INIT Init
 NEXT Next
 INVARIANTS TypeOK NoLate NextSound ExactlyOnce NotEarly Ordered Unique
